@@ -284,7 +284,54 @@ func (c *Ctx) checkSaveIsGlobal(r *Report, rule string) {
 		return
 	}
 	n := 0
-	for _, fn := range c.localHelpers(entry, 2) {
+	helpers := c.localHelpers(entry, 2)
+	inSet := map[*ssa.Function]bool{}
+	for _, h := range helpers {
+		inSet[h] = true
+	}
+	// rootKnown: where block b executes, environment v is known to have no outer one
+	var rootKnown func(v ssa.Value, b *ssa.BasicBlock, depth int) bool
+	rootKnown = func(v ssa.Value, b *ssa.BasicBlock, depth int) bool {
+		for _, cc := range controlling(b) {
+			bin, ok := cc.Cond.(*ssa.BinOp)
+			if !ok || (bin.Op != token.EQL && bin.Op != token.NEQ) {
+				continue
+			}
+			side := bin.X
+			if isNilConst(bin.X) {
+				side = bin.Y
+			} else if !isNilConst(bin.Y) {
+				continue
+			}
+			ld, ok := side.(*ssa.UnOp)
+			if !ok {
+				continue
+			}
+			ofa, ok := ld.X.(*ssa.FieldAddr)
+			if !ok || ofa.Field != outerIdx || ofa.X != v {
+				continue
+			}
+			if (bin.Op == token.EQL && cc.Edge == 0) || (bin.Op == token.NEQ && cc.Edge == 1) {
+				return true
+			}
+		}
+		// the environment is a parameter of a helper: known at every call made under SaveGlobals
+		if p, ok := v.(*ssa.Parameter); ok && depth < 2 && p.Parent() != entry {
+			idx := paramIndex(p.Parent(), p)
+			sites := 0
+			for _, h := range helpers {
+				for _, in := range allCallsTo(h, p.Parent()) {
+					sites++
+					if idx >= len(in.Common().Args) || !rootKnown(in.Common().Args[idx], in.Block(), depth+1) {
+						return false
+					}
+				}
+			}
+			return sites > 0
+		}
+		return false
+	}
+	for _, fn := range helpers {
 		k := 0
 		eachInstr(fn, func(in ssa.Instruction) {
 			fa, ok := in.(*ssa.FieldAddr)
@@ -293,30 +340,7 @@ func (c *Ctx) checkSaveIsGlobal(r *Report, rule string) {
 			}
 			n++
 			k++
-			root := false
-			for _, cc := range controlling(fa.Block()) {
-				bin, ok := cc.Cond.(*ssa.BinOp)
-				if !ok || (bin.Op != token.EQL && bin.Op != token.NEQ) {
-					continue
-				}
-				side := bin.X
-				if isNilConst(bin.X) {
-					side = bin.Y
-				} else if !isNilConst(bin.Y) {
-					continue
-				}
-				ld, ok := side.(*ssa.UnOp)
-				if !ok {
-					continue
-				}
-				ofa, ok := ld.X.(*ssa.FieldAddr)
-				if !ok || ofa.Field != outerIdx || ofa.X != fa.X {
-					continue
-				}
-				if (bin.Op == token.EQL && cc.Edge == 0) || (bin.Op == token.NEQ && cc.Edge == 1) {
-					root = true
-				}
-			}
+			root := rootKnown(fa.X, fa.Block(), 0)
 			desc := "the store that is saved is the outermost environment's"
 			if k > 1 {
 				desc += " #" + itoa(k)
@@ -328,4 +352,15 @@ func (c *Ctx) checkSaveIsGlobal(r *Report, rule string) {
 	if n == 0 {
 		r.Undecided("%s: no read of Environment.store under SaveGlobals", rule)
 	}
+}
+
+// allCallsTo: the static calls of callee inside fn.
+func allCallsTo(fn, callee *ssa.Function) []*ssa.Call {
+	var res []*ssa.Call
+	eachInstr(fn, func(in ssa.Instruction) {
+		if call, ok := in.(*ssa.Call); ok && call.Common().StaticCallee() == callee {
+			res = append(res, call)
+		}
+	})
+	return res
 }
